@@ -52,12 +52,15 @@ class ExecutionContext:
             return self.__CreateStructureInstance(varType)
         elif varType.IsArray():
             assert isinstance(varType, LinearIR.ArrayType)
-            result = [
-                self.__CreateInstance(varType.ElementType)
-            ] * varType.Size[0]
-            for dimSize in varType.Size[1:]:
-                result = [result] * dimSize
-            return result
+
+            # T[a][b] is an array of a arrays of b elements. Every element is
+            # created separately so that no two slots share an instance
+            def CreateDimension(sizes):
+                if not sizes:
+                    return self.__CreateInstance(varType.ElementType)
+                return [CreateDimension(sizes[1:]) for _ in range(sizes[0])]
+
+            return CreateDimension(list(varType.Size))
 
     def __CreatePrimitiveInstance(self, primitiveType: LinearIR.Type):
         match primitiveType.Kind:
